@@ -464,7 +464,7 @@ class Refs:
         if key in cls._memo:
             return cls._memo[key]
         iv = internal_version()
-        refs = {"iv": iv, "report": {}, "pickle": {}, "cid_of_fp": {}, "cid_of_fp_full": {}, "size": 0, "errors": []}
+        refs = {"iv": iv, "report": {}, "pickle": {}, "cid_of_fp": {}, "cid_of_fp_full": {}, "size": 0, "errors": [], "lossy": []}
         for v in list(variants) + ["other", "isa"]:
             root = os.path.join(scratch, "ref-%s-%s-%s" % (arch, os.path.basename(kernel), v))
             if os.path.isdir(root):
@@ -490,15 +490,27 @@ class Refs:
             t2 = os.path.join(fresh, os.path.basename(target))
             shutil.copy(target, t2)
             rc, out = vlib.sh([vlib.PY, DRIVER, "load", t2], env=w.env(), cwd=root, timeout=300)
+            r = {}
             try:
                 r = json.loads([l for l in out.splitlines() if l.startswith("{")][0])
                 refs["cid_of_fp_full"].setdefault(r["fp"], []).append(cid)
             except Exception:
                 refs["errors"].append("cold in-process load for content #%d failed: %s" % (cid, out[-300:]))
+            # a second process, served from the companion cache the first one wrote, must build the very same data
+            # (every attribute of every entry, not only what InstructionForm.__eq__ compares)
+            rc, out = vlib.sh([vlib.PY, DRIVER, "load", t2], env=w.env(), cwd=root, timeout=300)
+            try:
+                r2 = json.loads([l for l in out.splitlines() if l.startswith("{")][0])
+                if r.get("fpd") and r2.get("fpd") != r["fpd"]:
+                    refs["lossy"].append((os.path.basename(target), cid, "a load served from the cache builds other model data than the load that parsed the file"))
+            except Exception:
+                refs["errors"].append("warm in-process load for content #%d failed: %s" % (cid, out[-300:]))
             cand = glob.glob(os.path.join(fresh, ".*.pickle"))
             if cand:
                 raw = open(cand[0], "rb").read()
                 try:
+                    if r.get("fpd") and fp_data(pickle.loads(raw)) != r["fpd"] and not refs["lossy"]:
+                        refs["lossy"].append((os.path.basename(target), cid, "the cache file written by a cold load does not hold the data that load built"))
                     refs["cid_of_fp"].setdefault(fp_data(pickle.loads(raw)), []).append(cid)
                     if cid >= CID_ARCH0 and cid != CID_OTHER:
                         refs["pickle"][cid] = raw
